@@ -3,6 +3,7 @@ package sym
 import (
 	"fmt"
 	"math/rand"
+	"os"
 	"go/constant"
 	"go/token"
 	"go/types"
@@ -259,6 +260,11 @@ func (in *Interp) callSSA(caller *frame, pos token.Pos, fn *ssa.Function, args [
 			return nil
 		}
 		in.initDone[fn.Pkg] = true
+		if os.Getenv("VERIF_INIT_DEBUG") != "" {
+			before := in.steps
+			pp := fn.Pkg.Pkg.Path()
+			defer func() { fmt.Printf("[init-pkg] %s cumulative %d\n", pp, in.steps-before) }()
+		}
 		switch initMode(fn.Pkg.Pkg.Path()) {
 		case 0:
 			return nil
